@@ -8,7 +8,7 @@ from .. import REPO_DIR, app, docprops, engine
 from ..runner import Run, h64
 from .c07 import CRASH_RE
 
-PLAN = {"B2/853": 140, "B3/1409": 60, "N1/173": 200, "W1/32": 160, "S2/16": 100, "S3/4": 30, "I4/1553": 100, "U1/84": 50, "P2/36": 80, "R2/52": 60, "R3/36": 50, "Z1/16": 120, "Q2/20": 60, "P3/36": 60}
+PLAN = {"B2/853": 140, "B3/1409": 60, "N1/173": 200, "W1/32": 160, "S2/16": 100, "S3/4": 50, "I4/1553": 100, "U1/84": 50, "P2/36": 80, "R2/52": 60, "R3/36": 50, "Z1/16": 120, "Q2/20": 60, "P3/36": 60}
 EVALUATOR = "vp.props.c16:ev"
 RULE = (
     "documents = sub-lattices of the universes that parse and scan cleanly, in a line-ending / final-newline / non-ASCII variant chosen by source hash (as is, CR-LF, final newline toggled, "
